@@ -1,4 +1,4 @@
 package main
 
-func lockCFG(e *emitter) { panic("not built yet") }
+
 func enums(e *emitter)   { panic("not built yet") }
